@@ -168,3 +168,30 @@ class PointProps(TypeAliasProps):
 
 class PointSchema(GenericTypeAliasSchema[PointProps]):
     pass
+
+
+# A user-defined type that interprets a validation OPTION (an extra keyword argument of
+# validate(), which every visitor method hands down to nested schemas): an int; with
+# mc_strict=True bools are refused.
+class StrictInt(CustomSchema[Props]):
+    def __represent__(self, visitor: Any, *, indent: int = 0, **kwargs: Any) -> str:
+        return "schema.mc_strictint"
+
+    def __generate__(self, visitor: Any, **kwargs: Any) -> Any:
+        return 1
+
+    def __validate__(self, visitor: Any, *, value: Any = Nil, path: Any = Nil,
+                     mc_strict: bool = False, **kwargs: Any) -> Any:
+        from d42.validation.errors import TypeValidationError
+        result = visitor.make_validation_result()
+        if path is Nil:
+            path = visitor.make_path()
+        if not isinstance(value, int) or (mc_strict and isinstance(value, bool)):
+            result.add_error(TypeValidationError(path, value, int))
+        return result
+
+    def __substitute__(self, visitor: Any, *, value: Any = Nil, **kwargs: Any) -> Any:
+        return self
+
+
+register_type("mc_strictint", StrictInt)
